@@ -195,8 +195,7 @@ def run_history(hseed, nops, grish_all=False):
         info["point_tags"][tag] = info["point_tags"].get(tag, 0) + 1
         return op
 
-    # the first two operations are constructions so that evaluations are possible
-    for t in range(nops):
+    def step(t):
         c = r.random()
         if t < 2 or c < 0.16:
             if instances and r.random() < 0.3:
@@ -223,7 +222,10 @@ def run_history(hseed, nops, grish_all=False):
             arr = x if r.random() < 0.5 else x.copy()   # the stored array object itself, or a fresh copy
             op = do_eval(t, idx, arr, None, kind, "revisit", True)
             info["ops"]["revisit"] += 1
-        # ---- after every operation: tables ---------------------------------------------------------------------
+        return op
+
+    def post(t, op):
+        """after every operation: module-level and instance tables are what they were"""
         mod = module_digests()
         for name in mod:
             if mod[name] != mod0[name]:
@@ -234,6 +236,18 @@ def run_history(hseed, nops, grish_all=False):
             if d != inst["digest"]:
                 v(t, "instance_tables", op, instance=j, family=inst["fam"], args=list(inst["args"]))
                 inst["digest"] = d
+
+    # the first two operations are constructions so that evaluations are possible
+    for t in range(nops):
+        res, err = oc.guarded(step, t)
+        if err is not None:
+            # the implementation raised during a construction / evaluation: the history cannot be continued
+            v(t, "exception", {"op": "see traceback"}, **err)
+            break
+        _, err = oc.guarded(post, t, res)
+        if err is not None:
+            v(t, "exception", res, **err)
+            break
         if len(viol) > 20:
             break
     info["instances"] = len(instances)
@@ -244,7 +258,7 @@ def run_history(hseed, nops, grish_all=False):
 
 def run(tier, r):
     t0 = time.time()
-    max_hist = 80 if tier == "quick" else 360      # fixed schedule: everything is a function of r only
+    max_hist = 80 if tier == "quick" else 300      # fixed schedule: everything is a function of r only
     grish_all = tier == "thorough"
     violations, samples, seen = [], [], set()
     stats = {"histories": 0, "ops": {}, "families": {}, "point_tags": {}, "holder_modes": {}, "constraint_evals": 0,
@@ -282,7 +296,26 @@ def run(tier, r):
             "violations": violations, "known": [], "stats": stats, "samples": samples}
 
 
-def replay(case):
+def _replay_inproc(case):
     viol, info = run_history(case["hseed"], case["nops"], case.get("grish_all", False))
     hit = [c for c in viol if c["clause"] == case["clause"] and c["op_index"] == case["op_index"]]
     return {"reproduced": bool(hit), "detail": hit[0]["observed"] if hit else {"violations_found": len(viol)}}
+
+
+def replay(case):
+    """a history starts from freshly imported modules (module-level tables are part of the checked state), so the
+    replay runs in a fresh interpreter; in-process only if that is impossible"""
+    import json
+    import subprocess
+    code = ("import sys, json; sys.path.insert(0, %r); import c15; "
+            "print('REPLAY' + json.dumps(c15._replay_inproc(json.loads(sys.stdin.read())), default=str))"
+            % os.path.dirname(os.path.abspath(__file__)))
+    try:
+        pr = subprocess.run([sys.executable, "-c", code], input=json.dumps(case, default=str), capture_output=True,
+                            text=True, timeout=600)
+        for line in pr.stdout.splitlines():
+            if line.startswith("REPLAY"):
+                return json.loads(line[6:])
+    except Exception:
+        pass
+    return _replay_inproc(case)
